@@ -26,6 +26,16 @@ struct DmgJ { kind: String, rec: u64, region: String }
 struct CaseJ { n: u64, dmg: DmgJ, validate: String, fails: bool, plain: Vec<Vec<u64>>, skip: Vec<Vec<u64>>,
                #[serde(default)] ivalidate: String, #[serde(default)] iread: String, #[serde(default)] migrate: String }
 
+/// validate_blob; a panic of the tool is a rejection that is reported separately
+fn vblob(p: &Path) -> Result<(), String> {
+    let p2 = p.to_path_buf();
+    match std::panic::catch_unwind(move || pearl::tools::validate_blob(&p2)) {
+        Ok(Ok(())) => Ok(()),
+        Ok(Err(e)) => Err(format!("{e:#}")),
+        Err(_) => Err("panic".into()),
+    }
+}
+
 fn arg_flag(name: &str) -> bool { std::env::args().any(|a| a == name) }
 
 /// sizes of record i: (meta class, data length) - a mix of tiny, empty and two-part writes
@@ -301,7 +311,7 @@ fn main() {
                     (Ok(Err(e)), _) => mm.push(json!({"tool": "migrate_blob", "expected": c.migrate, "got": format!("err: {e:#}")})),
                     (Ok(Ok(())), want) => {
                         if std::fs::read(&input).unwrap_or_default() != img { mm.push(json!({"tool": "migrate_blob", "expected": "input untouched", "got": "input changed"})); }
-                        if let Err(e) = pearl::tools::validate_blob(&out) { mm.push(json!({"tool": "migrate_blob", "expected": "output validates", "got": format!("{e:#}")})); }
+                        if let Err(e) = vblob(&out) { mm.push(json!({"tool": "migrate_blob", "expected": "output validates", "got": e})); }
                         let ob = std::fs::read(&out).unwrap_or_default();
                         // metadata is a hash map: its entries may be written in another order (nothing else may differ)
                         let mask = |b: &[u8]| { let mut b = b.to_vec(); for l in lay.iter() { let (lo, hi) = region_range(l, "meta"); for p in lo..hi.min(b.len() as u64) { b[p as usize] = 0; } } b };
@@ -355,10 +365,12 @@ fn main() {
             std::fs::write(&input, &img).unwrap();
             let mut mm: Vec<Value> = Vec::new();
             // validate_blob
-            let v = pearl::tools::validate_blob(&input);
+            let v = vblob(&input);
             let got = if v.is_ok() { "accept" } else { "reject" };
-            if c.validate != "either" && c.validate != got {
-                mm.push(json!({"tool": "validate_blob", "expected": c.validate, "got": got, "err": v.err().map(|e| format!("{e:#}"))}));
+            if v.as_ref().err().map(|e| e == "panic").unwrap_or(false) {
+                mm.push(json!({"tool": "validate_blob", "expected": c.validate, "got": "panic"}));
+            } else if c.validate != "either" && c.validate != got {
+                mm.push(json!({"tool": "validate_blob", "expected": c.validate, "got": got, "err": v.err()}));
             }
             // recovery, plain and skipping
             for (skip, allowed) in [(false, &c.plain), (true, &c.skip)] {
@@ -367,7 +379,7 @@ fn main() {
                     let r = std::panic::catch_unwind(|| pearl::tools::recovery_blob(&input, &out, validate_every, skip));
                     let r = match r { Ok(r) => r, Err(_) => { mm.push(json!({"tool": "recovery_blob", "skip": skip, "got": "panic"})); continue } };
                     if c.fails {
-                        if r.is_ok() && out.exists() && pearl::tools::validate_blob(&out).is_err() {
+                        if r.is_ok() && out.exists() && vblob(&out).is_err() {
                             mm.push(json!({"tool": "recovery_blob", "skip": skip, "expected": "error or a valid blob", "got": "ok with an invalid output"}));
                         }
                         continue;
@@ -376,8 +388,8 @@ fn main() {
                         mm.push(json!({"tool": "recovery_blob", "skip": skip, "validate_every": validate_every, "expected": "ok", "got": format!("err: {e:#}")}));
                         continue;
                     }
-                    if let Err(e) = pearl::tools::validate_blob(&out) {
-                        mm.push(json!({"tool": "recovery_blob", "skip": skip, "expected": "output validates", "got": format!("{e:#}")}));
+                    if let Err(e) = vblob(&out) {
+                        mm.push(json!({"tool": "recovery_blob", "skip": skip, "expected": "output validates", "got": e}));
                         continue;
                     }
                     // an altered format version is the business of the storage's version check (C17),
@@ -404,9 +416,11 @@ fn main() {
                 let inplace = work.join("inplace.blob");
                 std::fs::write(&inplace, &img).unwrap();
                 let backup = work.join("inplace.blob.bak");
-                let r = pearl::tools::move_and_recover_blob(&inplace, &backup, 1);
+                let (i2, b2) = (inplace.clone(), backup.clone());
+                let r = std::panic::catch_unwind(move || pearl::tools::move_and_recover_blob(&i2, &b2, 1));
                 match r {
-                    Ok(()) => {
+                    Err(_) => mm.push(json!({"tool": "move_and_recover_blob", "expected": "ok", "got": "panic"})),
+                    Ok(Ok(())) => {
                         let back = std::fs::read(&backup).unwrap_or_default();
                         if back != img { mm.push(json!({"tool": "move_and_recover_blob", "expected": "backup is the unchanged input", "got": "backup differs"})); }
                         let scratch = work.join("st2");
@@ -422,7 +436,7 @@ fn main() {
                             Err(e) => mm.push(json!({"tool": "move_and_recover_blob+storage", "got": e})),
                         }
                     }
-                    Err(e) => mm.push(json!({"tool": "move_and_recover_blob", "expected": "ok", "got": format!("{e:#}")})),
+                    Ok(Err(e)) => mm.push(json!({"tool": "move_and_recover_blob", "expected": "ok", "got": format!("{e:#}")})),
                 }
             }
             if !mm.is_empty() {
